@@ -122,6 +122,8 @@ pub struct Gen {
     pub features: Vec<&'static str>,
     /// size budget (number of terms still allowed); keeps programs small
     budget: i32,
+    /// the next generated term must not consume the flow
+    fresh_start: bool,
 }
 
 const TUPLE_NAMES: &[&str] = &["A", "B", "C", "P"];
@@ -146,7 +148,7 @@ fn builtin(name: &str) -> Term {
 
 impl Gen {
     pub fn new(rng: Rng) -> Gen {
-        Gen { rng, counter: 0, features: vec![], budget: 0 }
+        Gen { rng, counter: 0, features: vec![], budget: 0, fresh_start: false }
     }
 
     fn feat(&mut self, f: &'static str) {
@@ -172,18 +174,12 @@ impl Gen {
     /// old and new type are equal and contain no union (F28: a narrowing recorded for a name
     /// survives its rebinding).
     fn var_name_for(&mut self, env: &Env, avoid: &[String], ty: Option<&Ty>) -> String {
-        if let Some(t) = ty {
-            if self.chance(1, 3) && !t.has_union() {
-                let cands: Vec<&Var> = env
-                    .vars
-                    .iter()
-                    .filter(|v| v.ty == *t && !avoid.contains(&v.name) && env.lookup(&v.name).map(|w| w.ty == *t).unwrap_or(false))
-                    .collect();
-                if !cands.is_empty() {
-                    let v = cands[self.rng.usize(cands.len())];
-                    self.feat("shadowing");
-                    return v.name.clone();
-                }
+        let _ = ty;
+        if self.chance(1, 5) && !env.vars.is_empty() {
+            let v = &env.vars[self.rng.usize(env.vars.len())];
+            if !avoid.contains(&v.name) {
+                self.feat("shadowing");
+                return v.name.clone();
             }
         }
         for _ in 0..4 {
@@ -285,7 +281,13 @@ impl Gen {
                 break;
             }
             let is_last = i + 1 == n;
+            // open finding (verdict provenance): the step after a match-terminated step must not
+            // consume the verdict
+            let prev_verdict =
+                chains.last().map(|c: &Chain| c.pat.is_some() || matches!(c.terms.last(), Some(Term::Match(_)))).unwrap_or(false);
+            self.fresh_start = prev_verdict || (i == 0 && self.fresh_start);
             let (c, ty, pend, r) = self.gen_step(env, &input, d, tail && is_last, cx, is_last);
+            self.fresh_start = false;
             chains.push(c);
             risk |= r;
             last = if may_nil { ty.with_nil() } else { ty.clone() };
@@ -318,6 +320,7 @@ impl Gen {
         let roll = self.rng.below(10);
         if !is_last && d > 0 && roll < 2 && self.budget > 3 {
             // f = #T { … }
+            self.fresh_start = false;
             let (t, ty, rec) = self.gen_fn(env, d - 1);
             let name = self.var_name(env, &[]);
             env.bind(&name, ty, St::Definite);
@@ -465,6 +468,27 @@ impl Gen {
     /// from `tin` (idioms of several terms).
     fn gen_term(&mut self, env: &mut Env, tin: &Ty, d: u32, tail: bool, cx: &Cx) -> (Vec<Term>, Ty, Option<Ty>) {
         self.budget -= 1;
+        if self.fresh_start {
+            // a term that replaces the flow: literal, data variable, parameter, arithmetic on those
+            self.fresh_start = false;
+            let nil = Ty::nil();
+            let data: Vec<Var> = env.readable().into_iter().filter(|v| !v.ty.top_fn()).collect();
+            return match self.rng.below(4) {
+                0 if !data.is_empty() => {
+                    let v = data[self.rng.usize(data.len())].clone();
+                    self.feat("var");
+                    (vec![Term::Access(Src::Var(v.name.clone()), vec![])], v.ty.clone(), None)
+                }
+                1 => {
+                    let ts = self.gen_arith(env, &nil, 0, cx);
+                    (ts, Ty::Int, Some(int2()))
+                }
+                _ => {
+                    let (t, ty) = self.gen_lit();
+                    (vec![t], ty, None)
+                }
+            };
+        }
         let small = self.low() || d == 0;
         // tail calls
         if tail && cx.param.is_some() && d > 0 {
@@ -949,7 +973,9 @@ impl Gen {
                 benv.settle(&pending);
                 benv.kill_pending();
                 let may_nil = cty.contains_nil();
+                self.fresh_start = true;
                 let more = self.gen_seq(&mut benv, &cty.without_nil(), d, tail_cond, cx, 2);
+                self.fresh_start = false;
                 cond.extend(more.chains);
                 cty = if may_nil { more.ty.with_nil() } else { more.ty };
                 pending = more.pending;
@@ -1205,8 +1231,7 @@ impl Gen {
             }
             _ => match &v {
                 Ty::Tup(name, fs) if !fs.is_empty() => {
-                    let all_tuples = variants.iter().all(|x| matches!(x, Ty::Tup(..)));
-                    let mode = if all_tuples { self.rng.below(12) } else { 11 };
+                    let mode = self.rng.below(12);
                     if mode == 0 && fs.iter().any(|f| f.0.is_some()) && variants.len() == 1 {
                         // star: binds every labelled field under its label
                         let labels: Vec<String> = fs.iter().filter_map(|f| f.0.clone()).collect();
@@ -1226,7 +1251,7 @@ impl Gen {
                         for (l, t) in fs {
                             let Some(l) = l else { continue };
                             if self.chance(2, 3) {
-                                if self.chance(1, 2) && !used.iter().any(|u| &u.0 == l) && env.lookup(l).is_none() {
+                                if self.chance(1, 2) && !used.iter().any(|u| &u.0 == l) {
                                     used.push((l.clone(), t.clone()));
                                     pfs.push((l.clone(), None));
                                 } else {
